@@ -197,6 +197,67 @@ theorem instance_peaks_are_inputs (A : Arbo P.edges r) (ho : toposort P.edges = 
     obtain ⟨rfl, rfl⟩ := Prod.mk.inj this
     exact globalIdx_of_lt r2
 
+/-- **An assigned peak appears in its instance row** (the converse of the second part of
+    `instance_peaks_are_inputs`): nothing is lost by an overwrite, so the connected components are
+    the output rows, not only the classes of the dict.  `hN`: the skeleton's node indices are
+    `< n_nodes` (they are positions in `part_names`). -/
+theorem assigned_peak_in_row (A : Arbo P.edges r) (ho : toposort P.edges = some P.order)
+    (S : LsaOK fixed lsa P ch scores) (h : groupSample fixed lsa P ch scores = .ok out)
+    (hN : ∀ e ∈ P.edges, e.1 < P.nNodes ∧ e.2 < P.nNodes)
+    {n k id : Nat} (hl : lookup out.assign (n, k) = some id) :
+    (rowOf out.assign P.nNodes id)[n]? = some (some k) := by
+  have I := finv_assignRaw (tree_conns A ho S h).2
+  have hnd := (peaks_disjoint A ho S h).1
+  -- n is a node of the skeleton
+  have hn : n < P.nNodes := by
+    have hl' := hl
+    rw [assign_eq_filterSmall h] at hl'
+    have hraw := lookup_filterSmall_sub I.nodupKeys hl'
+    have hend := I.keys (n, k) (by
+      show (lookup (assignRaw (pairs out.conns)) (n, k)).isSome = true
+      rw [hraw]; rfl)
+    obtain ⟨c, hc, hor⟩ := mem_endpoints.mp hend
+    obtain ⟨c', hc', rfl⟩ := List.mem_map.mp hc
+    obtain ⟨k', e, m, _, he, _, _, _, h1, h2, _, _⟩ := conn_facts S h hc'
+    obtain ⟨hk', hek⟩ := List.getElem?_eq_some_iff.mp he
+    have heE : e ∈ P.edges := hek ▸ List.getElem_mem hk'
+    rcases hor with hh | hh
+    · have : (n, k) = (e.1, m.row) := by rw [hh]; exact h1
+      rw [(Prod.mk.inj this).1]; exact (hN e heE).1
+    · have : (n, k) = (e.2, m.col) := by rw [hh]; exact h2
+      rw [(Prod.mk.inj this).1]; exact (hN e heE).2
+  unfold rowOf
+  rw [List.getElem?_map, List.getElem?_range hn]
+  simp only [Option.map_some, Option.some.injEq]
+  have hmem : ((n, k), id) ∈ out.assign.filter (fun kv => kv.2 == id && kv.1.1 == n) :=
+    List.mem_filter.mpr ⟨lookup_some_mem hl, by simp⟩
+  cases hL : (out.assign.filter (fun kv => kv.2 == id && kv.1.1 == n)).getLast? with
+  | none =>
+    rw [List.getLast?_eq_none_iff.mp hL] at hmem
+    simp at hmem
+  | some kv =>
+    have hkv := List.mem_of_getLast? hL
+    obtain ⟨hka, hp⟩ := List.mem_filter.mp hkv
+    simp only [Bool.and_eq_true, beq_iff_eq] at hp
+    have hlk : lookup out.assign (n, kv.1.2) = some id := by
+      apply lookup_of_mem hnd
+      have : kv = ((n, kv.1.2), id) := by
+        rcases kv with ⟨⟨x, y⟩, z⟩
+        simp only at hp
+        rw [hp.1, hp.2]
+      rw [← this]; exact hka
+    have := instance_one_peak_per_node A ho S h hl hlk
+    simp only [Option.map_some, Option.some.injEq]
+    exact this.symm
+
+/-- For parameters built as the code sees them (`mkParams`: a float `min_instance_peaks` goes through
+    `int(q * n_nodes)` **in float64**), the filter applied is the code's rule `minPeaksThresholdF64`. -/
+theorem min_peaks_code_rule {nNodes : Nat} {edges : List Edge} {order : List Nat} {minLine : R}
+    {mp : MinPeaks} (h : groupSample fixed lsa (mkParams nNodes edges order minLine mp) ch scores = .ok out) :
+    out.assign = filterSmall (rawAssign out) (minPeaksThresholdF64 mp nNodes) := by
+  rw [assign_eq_filterSmall h]
+  exact filterSmall_eff _ mp nNodes
+
 end pipeline
 
 /-! ## `make_predicted_instances` on any destination-fresh connection list -/
@@ -250,6 +311,32 @@ theorem instance_score_sum {cs : List (Conn R)} (h : DstFresh (pairs cs)) (mp : 
   · simp [hs]
 
 end make
+
+section run
+variable [Add R] [Neg R] [LT R] [DecidableLT R] [LE R] [DecidableLE R] [OfNat R 0] [OfNat R 1]
+variable {fixed : Bool} {lsa : Lsa R} {P : Params R} {r : Nat} {ch : List Nat}
+  {scores : List (Mat (Option R))} {out : Output R}
+
+/-- **The output of a run**: one instance per surviving id (ascending), its row is `rowOf`, and its
+    score is the sum of the scores of the accepted connections with both endpoints in it. -/
+theorem run_instances (A : Arbo P.edges r) (ho : toposort P.edges = some P.order)
+    (S : LsaOK fixed lsa P ch scores) (h : groupSample fixed lsa P ch scores = .ok out) :
+    out.insts = (sortedIds out.assign).map
+      (fun id => ⟨rowOf out.assign P.nNodes id, instScore out.conns out.assign id⟩) ∧
+    ∀ id, instScore out.conns out.assign id =
+      (out.conns.filter fun c => lookup out.assign c.src == some id && lookup out.assign c.dst == some id).foldl
+        (fun acc c => acc + c.score) 0 := by
+  obtain ⟨_, _, ha, hi⟩ := groupSample_ok h
+  have T := (tree_conns A ho S h).2
+  have hsum := instance_score_sum T P.minPeaks P.nNodes
+  simp only at hsum
+  rw [← ha] at hsum
+  refine ⟨?_, hsum.1⟩
+  have := hsum.2
+  rw [hi] at this
+  exact Except.ok.inj this
+
+end run
 
 /-! ## optimality of the per-edge matches (from the solver contract) -/
 
@@ -348,6 +435,47 @@ theorem matches_fixed_lex_optimal {lsa : Lsa K} (ch : List Nat) (scores : List (
   refine ⟨ms, h1, h2, fun M' VM' => ⟨(h3 M' VM').1, fun heq => ?_⟩⟩
   rw [totalScore_eq_neg_cost, totalScore_eq_neg_cost]
   exact neg_le_neg ((h3 M' VM').2 heq)
+
+/-- **Optimality of the matches of a run** (repaired code): for every edge type of the skeleton the
+    matches in `out.mts` are lexicographically optimal in the sense of `matches_fixed_lex_optimal`. -/
+theorem run_matches_lex_optimal {lsa : Lsa K} {P : Params K} {ch : List Nat}
+    {scores : List (Mat (Option K))} {out : Output K}
+    (S : LsaOK true lsa P ch scores) (h : groupSample true lsa P ch scores = .ok out)
+    {k : Nat} {e : Edge} (he : P.edges[k]? = some e) :
+    ValidAssign (edgeCost ch scores k e) (rc (out.mts.getD k [])) ∧
+    ∀ M', ValidAssign (edgeCost ch scores k e) M' →
+      M'.length ≤ (rc (out.mts.getD k [])).length ∧
+      (M'.length = (rc (out.mts.getD k [])).length →
+        totalScore (edgeCost ch scores k e) M' ≤
+          totalScore (edgeCost ch scores k e) (rc (out.mts.getD k []))) := by
+  have hS := S k e he
+  unfold lsaInput at hS
+  simp only [if_true] at hS
+  obtain ⟨ms, h1, h2, h3⟩ := matches_fixed_lex_optimal ch scores k e hS
+  have hg := matchAll_get (groupSample_ok h).1 he
+  unfold matchEdge at hg
+  simp only [if_true] at hg
+  rw [h1] at hg
+  cases hg
+  exact ⟨h2, h3⟩
+
+/-- … and of the pinned code (where it does not raise): saturating, valid, maximum total score. -/
+theorem run_matches_optimal {lsa : Lsa K} {P : Params K} {ch : List Nat}
+    {scores : List (Mat (Option K))} {out : Output K}
+    (S : LsaOK false lsa P ch scores) (h : groupSample false lsa P ch scores = .ok out)
+    {k : Nat} {e : Edge} (he : P.edges[k]? = some e) :
+    IsMatching (edgeCost ch scores k e) (rc (out.mts.getD k [])) ∧
+    ∀ M', IsMatching (edgeCost ch scores k e) M' →
+      totalScore (edgeCost ch scores k e) M' ≤
+        totalScore (edgeCost ch scores k e) (rc (out.mts.getD k [])) := by
+  have hS := S k e he
+  unfold lsaInput at hS
+  simp only [Bool.false_eq_true, if_false] at hS
+  have hg := matchAll_get (groupSample_ok h).1 he
+  unfold matchEdge at hg
+  simp only [Bool.false_eq_true, if_false] at hg
+  obtain ⟨h1, _, h3⟩ := matches_optimal hS hg
+  exact ⟨h1, h3⟩
 
 end optimal
 
@@ -522,5 +650,102 @@ def exRun (fixed : Bool) : Option (Assign × List (List (Option Nat))) :=
 
 example : exRun true = some ([((0, 0), 0), ((1, 0), 0)], [[some 0, some 0]]) := by decide
 example : exRun false = some ([((0, 0), 0), ((1, 0), 0)], [[some 0, some 0]]) := by decide
+
+/-! ### a richer witness (carrier `Int`, so that `decide` evaluates every number)
+
+Skeleton `0 → 1 → 2` listed out of order (`[(1,2),(0,1)]`, processed in the order `[1,0]`), two peaks
+of node 0, two of node 1, one of node 2.  Edge `0→1` has a NaN candidate (`none`), so the repaired
+code fills the cell with the sentinel `2·(5+1+4)+1 = 21`; edge `1→2` is a 2×1 matrix.  Both case 1 and
+case 2 fire, and `min_instance_peaks = 3` drops the two-peak instance whole. -/
+
+def ex2P : Params Int := mkParams 3 [(1, 2), (0, 1)] [1, 0] 0 (.int 3)
+def ex2ch : List Nat := [0, 0, 1, 1, 2]
+def ex2scores : List (Mat (Option Int)) := [[[some 3], [some 2]], [[some 5, none], [some 1, some 4]]]
+def ex2F1 : Mat (Option Int) := [[some (-5), some 21], [some (-1), some (-4)]]
+def ex2F0 : Mat (Option Int) := [[some (-3)], [some (-2)]]
+def ex2Lsa : Lsa Int := fun C => if C = ex2F1 then some [(0, 0), (1, 1)] else some [(0, 0)]
+
+example : Arbo ex2P.edges 0 :=
+  { nodup := by decide
+    noRootIn := by decide
+    uniqueParent := by decide
+    reach := by
+      intro e he
+      have r0 : Reach [(1, 2), (0, 1)] 0 0 := Reach.root
+      have r1 : Reach [(1, 2), (0, 1)] 0 1 := Reach.step r0 (by simp)
+      simp [ex2P, mkParams] at he
+      rcases he with rfl | rfl <;> assumption }
+
+example : toposort ex2P.edges = some ex2P.order := by decide
+
+theorem ex2_specF1 : LsaSpecOn ex2Lsa ex2F1 := by
+  refine ⟨?_, by simp [ex2Lsa]⟩
+  intro M hM
+  simp [ex2Lsa] at hM; subst hM
+  refine ⟨⟨⟨by simp, by simp⟩, by simp [nRows, nCols, ex2F1], by simp [nRows, nCols, ex2F1],
+    by simp [entry, ex2F1]⟩, ?_⟩
+  intro M' IM'
+  have hlen : M'.length = 2 := by simpa [nRows, nCols, ex2F1] using IM'.saturating
+  match M', hlen with
+  | [a, b], _ =>
+    have ha := IM'.inRange a (by simp)
+    have hb := IM'.inRange b (by simp)
+    have hr := IM'.oneToOne.1
+    have hc := IM'.oneToOne.2
+    obtain ⟨a1, a2⟩ := a
+    obtain ⟨b1, b2⟩ := b
+    simp [nRows, nCols, ex2F1] at ha hb hr hc
+    have h1 : a1 = 0 ∨ a1 = 1 := by omega
+    have h2 : a2 = 0 ∨ a2 = 1 := by omega
+    have h3 : b1 = 0 ∨ b1 = 1 := by omega
+    have h4 : b2 = 0 ∨ b2 = 1 := by omega
+    rcases h1 with rfl | rfl <;> rcases h2 with rfl | rfl <;> rcases h3 with rfl | rfl <;>
+      rcases h4 with rfl | rfl <;> first | (exfalso; omega) | decide
+
+theorem ex2_specF0 : LsaSpecOn ex2Lsa ex2F0 := by
+  have hne : ex2F0 ≠ ex2F1 := by decide
+  refine ⟨?_, by simp [ex2Lsa, hne]⟩
+  intro M hM
+  simp [ex2Lsa, hne] at hM; subst hM
+  refine ⟨⟨⟨by simp, by simp⟩, by simp [nRows, nCols, ex2F0], by simp [nRows, nCols, ex2F0],
+    by simp [entry, ex2F0]⟩, ?_⟩
+  intro M' IM'
+  have hlen : M'.length = 1 := by simpa [nRows, nCols, ex2F0] using IM'.saturating
+  match M', hlen with
+  | [a], _ =>
+    have ha := IM'.inRange a (by simp)
+    obtain ⟨a1, a2⟩ := a
+    simp [nRows, nCols, ex2F0] at ha
+    have h1 : a1 = 0 ∨ a1 = 1 := by omega
+    have h2 : a2 = 0 := by omega
+    subst h2
+    rcases h1 with rfl | rfl <;> decide
+
+theorem ex2LsaOK : LsaOK true ex2Lsa ex2P ex2ch ex2scores := by
+  intro k e he
+  match k, he with
+  | 0, he =>
+    have : e = (1, 2) := by simp [ex2P, mkParams] at he; exact he.symm
+    subst this
+    have hC : lsaInput true (edgeCost ex2ch ex2scores 0 (1, 2)) = ex2F0 := by decide
+    rw [hC]; exact ex2_specF0
+  | 1, he =>
+    have : e = (0, 1) := by simp [ex2P, mkParams] at he; exact he.symm
+    subst this
+    have hC : lsaInput true (edgeCost ex2ch ex2scores 1 (0, 1)) = ex2F1 := by decide
+    rw [hC]; exact ex2_specF1
+  | k + 2, he => simp [ex2P, mkParams] at he
+
+/-- the run on the richer witness: connections, cases taken, final instance map, rows and scores -/
+def ex2Run : Option (List (Peak × Peak) × List Case × Assign × List (List (Option Nat) × Int)) :=
+  match groupSample true ex2Lsa ex2P ex2ch ex2scores with
+  | .ok out => some (pairs out.conns, caseTrace (pairs out.conns), out.assign,
+      out.insts.map fun i => (i.row, i.score))
+  | .error _ => none
+
+example : ex2Run.map (·.1) = some [((0, 0), (1, 0)), ((0, 1), (1, 1)), ((1, 0), (2, 0))] := by decide
+example : ex2Run.map (·.2.1) = some [.c1, .c1, .c2] := by decide
+example : ex2Run.map (·.2.2.1) = some [((0, 0), 0), ((1, 0), 0), ((2, 0), 0)] := by decide
+example : ex2Run.map (·.2.2.2) = some [([some 0, some 0, some 0], 8)] := by decide
 
 end SleapVerif.C08
